@@ -147,7 +147,7 @@ def check_config(ctx, spec, rsel, label):
     for ename, eps in entry_choices:
         provided = dict(base)
         for p in eps:
-            provided[p] = 0 if label.startswith("loop") or label.startswith("nested-loop") else f"run:{p}"
+            provided[p] = 0 if label.startswith("loop") or label.startswith("nested-loop") or spec.get("int_inputs") else f"run:{p}"
         if label.startswith("loop") or label.startswith("nested-loop"):
             for k in provided:
                 provided[k] = 0 if not k.startswith("messages") else []
@@ -399,6 +399,24 @@ def directed_cases():
         out.append((lab + ":runtime-select", {"name": "ord", "nodes": copy.deepcopy(nodes), "bind": {}, "expect_selected": True}, ["final"]))
         inner = {"name": "ordin", "nodes": copy.deepcopy(nodes), "bind": {}, "select": ["final"]}
         out.append((lab + ":nested-select", {"name": "outer", "nodes": [{"k": "sub", "name": "ordin", "prog": inner}, {"k": "fn", "name": "sink", "params": [{"n": "final"}], "outs": ["sunk"]}], "bind": {}, "select": ["sunk"], "expect_selected": True}, None))
+    # two INDEPENDENT cycles with their own outputs, each narrowed to by a selection: the contract of the selected scope
+    # (graph-level select, run-time select, and a run-time select that WIDENS a narrower graph-level one) names exactly
+    # the cycles in that scope
+    cyc = [
+        {"k": "fn", "name": "ia", "params": [{"n": "a"}], "outs": ["a"], "beh": ["inc", "a"]},
+        {"k": "route", "name": "ga", "params": [{"n": "a"}], "targets": ["ia", "END"], "cond": ["lt", "a", 2], "then": "ia", "else": "END"},
+        {"k": "fn", "name": "ib", "params": [{"n": "b"}], "outs": ["b"], "beh": ["inc", "b"]},
+        {"k": "route", "name": "gb", "params": [{"n": "b"}], "targets": ["ib", "END"], "cond": ["lt", "b", 2], "then": "ib", "else": "END"},
+    ]
+    for sel, rsel in ((["a"], None), (None, ["a"]), (None, ["b"]), (["a"], ["b"]), (["b"], ["a", "b"]), (["a"], "**")):
+        spec_ = {"name": "twoind", "nodes": copy.deepcopy(cyc), "bind": {}, "int_inputs": True}
+        if sel:
+            spec_["select"] = list(sel)
+        out.append((f"directed:two-independent-cycles:select={sel}:runtime={rsel}", spec_, rsel))
+    # a mapping nested-graph node whose MAPPED parameter has a signature default inside (a default work list): the name
+    # is optional outside, and leaving it out is accepted and runs
+    inner_m = {"name": "batch", "nodes": [{"k": "fn", "name": "work", "params": [{"n": "item", "d": ["d0", "d1"]}, {"n": "tag"}], "outs": ["done"]}], "bind": {}}
+    out.append(("directed:mapped-parameter-with-inner-default", {"name": "outer", "nodes": [{"k": "fn", "name": "pre", "params": [{"n": "raw"}], "outs": ["tag"]}, {"k": "sub", "name": "batch", "prog": inner_m, "map": {"over": ["item"], "mode": "zip", "err": "raise"}}], "bind": {}, "select": ["done"], "expect_selected": True}, None))
     out.append(("directed:two-data-cycles-coupled-by-a-gate:reordered", {"name": "twocyc", "nodes": [copy.deepcopy(two[2]), copy.deepcopy(two[1]), copy.deepcopy(two[0])], "bind": {}, "int_inputs": True}, None))
     return out
 
